@@ -165,6 +165,20 @@ theorem runs_of_exec {ext : Ext} {s : Stmt} {env : Env} {r : Res} (K : Nat) (h :
 theorem ofList_eq_nil (l : List Val) : (Val.ofList l = .nil) = (l = []) := by
   cases l <;> simp [Val.ofList]
 
+@[simp] theorem evalCmp_lt_int (x y : Int) : evalCmp .lt (.int x) (.int y) = .ok (.bool (decide (x < y))) := by
+  simp [evalCmp, sameNumKind, numOf]
+@[simp] theorem evalCmp_le_int (x y : Int) : evalCmp .le (.int x) (.int y) = .ok (.bool (decide (x ≤ y))) := by
+  simp [evalCmp, sameNumKind, numOf]
+@[simp] theorem evalCmp_gt_int (x y : Int) : evalCmp .gt (.int x) (.int y) = .ok (.bool (decide (y < x))) := by
+  simp [evalCmp, sameNumKind, numOf]
+@[simp] theorem evalCmp_ge_int (x y : Int) : evalCmp .ge (.int x) (.int y) = .ok (.bool (decide (y ≤ x))) := by
+  simp [evalCmp, sameNumKind, numOf]
+@[simp] theorem evalCmp_eq (a b : Val) : evalCmp .eq a b = .ok (.bool (a == b)) := by simp [evalCmp]
+@[simp] theorem evalCmp_ne (a b : Val) : evalCmp .ne a b = .ok (.bool (a != b)) := by simp [evalCmp]
+
+@[simp] theorem truth_bool (b : Bool) : truth (.bool b) = .ok b := rfl
+@[simp] theorem truth_none : truth .none = .ok false := rfl
+
 @[simp] theorem truth_list (l : List Val) : truth (.list (Val.ofList l)) = .ok (!l.isEmpty) := by
   cases l <;> simp [truth, Val.ofList]
 
